@@ -43,8 +43,11 @@ def spec(tier, seed):
         chosen = full
     for c in chosen:
         inst.append(c02a(*c))
+    from . import _mir
     return {
         "instances": inst,
+        "mir_vcs": [{"name": "apply_modify: offset and frozen line handed from one hunk to the next", "function": "apply_modify", "target": "lib",
+                     "run": lambda f, v, w: _mir.vc_apply_bookkeeping(f, v, w)}],
         "level": "model_checking",
         "functions": ["patch::try_apply_hunk", "patch::try_apply_hunk::matches", "HunkView::new", "HunkView::remove_content",
                       "HunkView::add_content", "HunkView::prefix_context", "HunkView::suffix_context", "HunkView::position",
@@ -65,3 +68,8 @@ def spec(tier, seed):
         "explanation": "bounded model checking of the real try_apply_hunk against a reference placement written from the property text; "
                        "the solver ranges over all line-equality patterns and positions inside each concrete shape",
     }
+
+
+def replay_candidate(v, work, log):
+    from .. import replay
+    return replay.replay_by_sweep("C02", v, work, log)
